@@ -13,10 +13,13 @@
   NOT provable because false of the code (see `C16_cmp_eq_inconsistent`): "the ordering is
   consistent with equality" — `Buy(0) == Sell(0)` but `Buy(0) < Sell(0)`; the partial statement
   excludes exactly that pair. Recorded in KNOWN_FINDINGS.txt.
-  Monotonicity of the float conversion is at present validated (bisected transition points of the
-  f64 step function and — thorough tier — every f32 bit pattern, monotone in-process), not proved.
+  Monotonicity of the f64 conversion is proved on the bit level (`C16_monotone`: for every pair of non-NaN bit patterns
+  in the order of the floats, −0.0 = +0.0) and for the rational model with any monotone rounding (`C16_monotone_model`);
+  the f32 conversion is validated (thorough tier: every f32 bit pattern, monotone in-process).
 -/
 import YataProofs.Action
+import YataProofs.ActMono
+import YataProofs.StrMono
 namespace Yata.C16
 open Yata Yata.Action
 
@@ -67,7 +70,20 @@ theorem C16_cmp_consistent_partial {a b : Action} (h : a.eq b = true)
     (hz : ¬ ((a = buy 0 ∧ b = sell 0) ∨ (a = sell 0 ∧ b = buy 0))) : a.cmp b = .eq :=
   cmp_consistent_partial h hz
 
+/-- monotone: a larger float never converts to an action of smaller ratio (bit level, all 2^64 − NaN patterns) -/
+theorem C16_monotone (b1 b2 : Nat) (n1 : F64.isNaN b1 = false) (n2 : F64.isNaN b2 = false) (h : F64.le b1 b2) :
+    (F64.toAction b1).ratio0 ≤ (F64.toAction b2).ratio0 := F64.toAction_mono b1 b2 n1 n2 h
+
+/-- the same for the rational model of the conversion, with any monotone rounding of the product -/
+theorem C16_monotone_model (rne : Rat → Rat) (hm : ∀ a b : ℚ, a ≤ b → rne a ≤ rne b) (q1 q2 : ℚ) (h : q1 ≤ q2) :
+    (ofRatWith rne (decide (q1 < 0)) q1).ratio0 ≤ (ofRatWith rne (decide (q2 < 0)) q2).ratio0 :=
+  ofRatWith_mono rne hm q1 q2 h
+
 /-! non-vacuity -/
+example : F64.le 0xbfe0000000000000 0x3fd0000000000000 := by   -- −0.5 ≤ 0.25
+  have h1 : F64.sign 0xbfe0000000000000 = true := by decide +kernel
+  have h2 : F64.sign 0x3fd0000000000000 = false := by decide +kernel
+  simp only [F64.le, h1, h2]
 example : (buy 5).WF ∧ (sell 3).WF ∧ (buy 5).sub (sell 3) = buy 8 := by decide
 example : F64.toAction 0x3fe0000000000000 = buy 128 := by decide +kernel   -- 0.5 ↦ round(127.5) = 128
 
@@ -86,3 +102,5 @@ end Yata.C16
 #print axioms Yata.C16.C16_eq_equivalence
 #print axioms Yata.C16.C16_cmp_eq_inconsistent
 #print axioms Yata.C16.C16_cmp_consistent_partial
+#print axioms Yata.C16.C16_monotone
+#print axioms Yata.C16.C16_monotone_model
